@@ -150,6 +150,10 @@ ELEMENTS = [
     ("fake@5/48", el("fake", F(5, 48) + 8, 0)),
     ("keysound@1/32", el("keysound", F(4) + F(1, 32), 1)),
     ("chord@0", el("hit", F(0), 1)),
+    ("tap@2/5", el("hit", F(2, 5), 1)),
+    ("mine@7/11", el("mine", F(4) + F(7, 11), 0)),
+    ("hold-then-roll-one-col", lambda doc, slot: (el("hold", F(8), 3, F(1, 2))(doc, slot), el("roll", F(9), 3, F(3, 4))(doc, slot))),
+    ("roll-then-hold-one-col", lambda doc, slot: (el("roll", F(12), 0, F(1, 4))(doc, slot), el("hold", F(13), 0, F(2))(doc, slot))),
 ]
 
 
@@ -340,6 +344,22 @@ def problem_class(msg):
     return "other"
 
 
+def rows_needed(doc):
+    """Largest number of rows a measure needs to hold all its positions exactly (the writer caps at 384)."""
+    import math
+
+    worst = 4
+    for c in doc["charts"]:
+        per = {}
+        for kd, b, col, l in c["notes"]:
+            for bb in ([b] if l is None else [b, b + l]):
+                m = int(bb // 4)
+                d = (bb % 4).denominator * 4
+                per[m] = per.get(m, 4) * d // math.gcd(per.get(m, 4), d)
+        worst = max([worst] + list(per.values()))
+    return worst
+
+
 def check(devs, seq, ctx):
     doc = builder.build(default_doc, AXES, ELEMENTS, devs, seq, finalize)
     lab = builder.label(AXES, ELEMENTS, devs, seq)
@@ -359,7 +379,7 @@ def check(devs, seq, ctx):
         ctx.check("setup", False, site=dict(site, exc=type(e).__name__), case=case, observed=f"{type(e).__name__}: {e}"[:300], expected="mapset built from items")
         return
     on_lines = all((b - doc["bpms"][0][0]) % 4 == 0 for b, _ in doc["bpms"])
-    exact = on_lines and not doc.get("_dense")
+    exact = on_lines and rows_needed(doc) <= 384
     slow = float(min(v for _, v in doc["bpms"]))
     judge(ms, dens, exact, slow, site, case, ctx)
 
